@@ -407,38 +407,69 @@ def describe(c):
 
 
 SAMPLE_PY = """
-# replay for C14: Tensor.sample with chosen uniforms
+# replay for C14: Tensor.sample with the uniforms chosen by the harness
+import itertools
 import numpy as np
 from collections import OrderedDict
-from funsor.domains import Bint
+from funsor.domains import Bint, Real
 from funsor.tensor import Tensor
-import funsor.ops as ops
 W = np.array({W}, dtype=np.float64)
+inputs = {inputs_plain}
+sampled = {sampled}
+sample_inputs = {sample_inputs_plain}
+LAW = {law}
 with np.errstate(divide="ignore"):
-    f = Tensor(np.log(W), OrderedDict({inputs}))
+    f = Tensor(np.log(W), OrderedDict((n, Bint[k]) for n, k in inputs))
 R = np.array({R}, dtype=np.float64)
 _rand = np.random.rand
 np.random.rand = lambda *shape: R.reshape(shape)
 try:
-    s = f.sample(frozenset({sampled}), OrderedDict({sample_inputs}))
+    with np.errstate(all="ignore"):
+        s = f.sample(frozenset(sampled), OrderedDict((n, Bint[k]) for n, k in sample_inputs))
 finally:
     np.random.rand = _rand
-sampled = {sampled}
-names = [n for n, _ in {inputs_plain}]
-sizes = dict({inputs_plain})
-FAILS = False
-import itertools
-dense = {{}}
-for e in itertools.product(*[range(sizes[n]) for n in sampled]):
-    v = s(**dict(zip(sampled, e)))
-    dense[e] = np.exp(np.asarray(v.data, dtype=np.float64))
-tot = sum(dense.values())
-orig = f.reduce(ops.logaddexp, frozenset(sampled))
-print("mass of sample  :", tot)
-print("mass of original:", np.exp(np.asarray(orig.data)))
-print("see witness['problem'] for the violated clause")
-FAILS = True
+size = dict(inputs)
+eff = [(n, k) for n, k in sample_inputs if n not in size]
+batch = [n for n, _ in inputs if n not in sampled]
+event = [n for n, _ in inputs if n in sampled]
+names = [n for n, _ in eff] + batch + event
+sizes = [k for _, k in eff] + [size[n] for n in batch] + [size[n] for n in event]
+problems = []
+if {{k: int(v.size) for k, v in s.inputs.items()}} != dict(eff + inputs) or s.output != Real:
+    problems.append("inputs/output: %s -> %s" % (dict(s.inputs), s.output))
+else:
+    D = np.zeros(sizes)
+    for idx in itertools.product(*map(range, sizes)):
+        with np.errstate(all="ignore"):
+            D[idx] = np.exp(float(np.asarray(s(**dict(zip(names, idx))).data)))
+    Wt = np.transpose(W, [[n for n, _ in inputs].index(n) for n in batch + event])
+    ne = len(event)
+    lead = D.shape[:len(D.shape) - ne]
+    for idx in itertools.product(*map(range, lead)):
+        b = idx[len(eff):]
+        row, wrow = D[idx], Wt[b]
+        if abs(row.sum() - wrow.sum()) > 1e-9 * max(1.0, wrow.sum()):
+            problems.append("mass at %s: %r, original %r" % (idx, row.sum(), wrow.sum()))
+        if wrow.sum() > 0 and ((row > 0).sum() != 1 or (wrow[row > 0] <= 0).any()):
+            problems.append("point at %s: cells with mass %s, their original weights %s"
+                            % (idx, np.argwhere(row > 0).tolist(), wrow[row > 0].tolist()))
+    if LAW and len(eff) == 1:
+        M = eff[0][1]
+        freq = (D > 0).sum(0)
+        for b in itertools.product(*[range(size[n]) for n in batch]):
+            if Wt[b].sum() > 0 and (abs(freq[b] - M * Wt[b] / Wt[b].sum()) > 1 + 1e-6).any():
+                problems.append("law at batch %s: counts %s for probabilities %s"
+                                % (b, freq[b].tolist(), (Wt[b] / Wt[b].sum()).tolist()))
+print("\\n".join(problems[:10]) or "sample satisfies C14")
+FAILS = bool(problems)
 """
+
+
+def sample_py(c, R, law=False):
+    return SAMPLE_PY.format(W=c["W"].tolist(), inputs_plain=[(n, k) for n, k in c["inputs"]],
+                            sampled=sorted(c["sampled"]),
+                            sample_inputs_plain=[(n, k) for n, k in c["sample_inputs"]],
+                            R=np.asarray(R).tolist(), law=law)
 
 
 def run_sample(c, R=None, rng=None):
@@ -503,10 +534,7 @@ def check_sample_case(ctx, c, use_driver=True, gate_model=False):
         return
     s, R, f = res["s"], res["R"], res["f"]
     wit["R"] = R.tolist()
-    py = SAMPLE_PY.format(W=c["W"].tolist(), inputs=[(n, f"Bint[{k}]") for n, k in c["inputs"]],
-                          R=R.tolist(), sampled=sorted(c["sampled"]),
-                          sample_inputs=[(n, f"Bint[{k}]") for n, k in c["sample_inputs"]],
-                          inputs_plain=c["inputs"]).replace("'Bint[", "Bint[").replace("]')", "])")
+    py = sample_py(c, R)
 
     def bad(name, problem, expected=None, got=None):
         w = dict(wit)
@@ -700,11 +728,7 @@ def law_case(ctx, c, M=64):
                 w2["problem"] = (f"batch {dict(zip(batch, b))}: cell {dict(zip(sampled, e))} has probability "
                                  f"{float(w / tot)} but receives {got}/{M} of an even grid of uniforms")
                 ctx.fail("input", "C14.sample-law", witness=w2, expected=f"{want} +- 1", got=str(got),
-                         python=SAMPLE_PY.format(
-                             W=c["W"].tolist(), inputs=[(n, f"Bint[{k}]") for n, k in c["inputs"]],
-                             R=R.tolist(), sampled=sorted(c["sampled"]),
-                             sample_inputs=[("p", f"Bint[{M}]")], inputs_plain=c["inputs"]
-                         ).replace("'Bint[", "Bint[").replace("]')", "])"))
+                         python=sample_py(c, R, law=True))
                 return
     ctx.case(nontrivial_key=("law", tuple(c["inputs"]), tuple(c["sampled"]), c["W"].tobytes()))
 
@@ -835,6 +859,36 @@ def build_delta(c):
     return Delta("x", point, ld), lazy_env, binputs
 
 
+DELTA_PY = """
+# replay for C14: Delta(x, point, log_density)(x=value) at one batch element
+import numpy as np
+from collections import OrderedDict
+from funsor.domains import Bint, Real, Reals
+from funsor.tensor import Tensor
+from funsor.terms import Number, Variable
+from funsor.delta import Delta
+binputs = OrderedDict((n, Bint[k]) for n, k in {binputs})
+dtype, form, ev = {dtype!r}, {form!r}, {ev}
+pdata = np.array({pdata}); ld = np.array({ld}, dtype=np.float64); value = np.array({value}); b = {batch}
+full = Tensor(pdata, binputs, dtype)
+if form == "number":
+    point = Number(int(pdata), dtype)
+elif form == "lazy":
+    point = Variable("y", Bint[dtype] if dtype != "real" else (Reals[ev] if ev else Real))
+else:
+    point = full
+ldf = Tensor(ld, binputs) if ld.ndim else Number(float(ld))
+with np.errstate(all="ignore"):
+    got = Delta("x", point, ldf)(x=Tensor(value, OrderedDict(), dtype))
+    if form == "lazy":
+        got = got(y=full)
+got = np.broadcast_to(np.asarray(got.data, dtype=np.float64), pdata.shape[:len(binputs)])[b]
+want = float(ld[b] if ld.ndim else ld) if np.array_equal(pdata[b], value) else -np.inf
+print("got", got, "want", want)
+FAILS = not (got == want)
+"""
+
+
 def delta_eval_case(ctx, c, use_driver=True):
     rng = ctx.rng
     try:
@@ -887,7 +941,11 @@ def delta_eval_case(ctx, c, use_driver=True):
                     w = dict(wit)
                     w.update(value=np.asarray(v).tolist(), batch=b, problem="Delta evaluated at a value")
                     ctx.fail("input", "C14.delta-eval", witness=w, expected=str(want), got=str(got),
-                             python=None)
+                             python=DELTA_PY.format(
+                                 binputs=border, dtype=c["n"] if c["kind"] == "int" else "real",
+                                 form=c["point_form"], ev=tuple(c["ev"]), pdata=c["pdata"].tolist(),
+                                 ld=np.asarray(c["ld"]).tolist() if np.isfinite(np.asarray(c["ld"])).all()
+                                 else "-np.inf", value=np.asarray(v).tolist(), batch=tuple(b)))
                     return
                 reqs.append(f"C14 delta-eval {sx(val_as_list(p))} {ld_atom(ld)} {sx(val_as_list(v))}")
                 meta.append(want)
@@ -899,6 +957,40 @@ def delta_eval_case(ctx, c, use_driver=True):
     ctx.case(sample={k: wit[k] for k in ("kind", "bsizes", "n", "point_form", "ldkind")},
              nontrivial_key=("delta-eval", c["kind"], tuple(c["bsizes"]), c["n"], c["point_form"], c["ldkind"],
                              c["pdata"].tobytes(), np.asarray(c["ld"]).tobytes()) if meta else None)
+
+
+DELTA_RED_PY = """
+# replay for C14: (Delta + f).reduce(op, x) / Integrate(Delta, f, x) for a unit-mass Delta
+import numpy as np
+from collections import OrderedDict
+from funsor.domains import Bint
+from funsor.tensor import Tensor
+from funsor.terms import Number, Variable
+from funsor.delta import Delta
+from funsor.integrate import Integrate
+import funsor.ops as ops
+n, which, side, form = {n}, {which!r}, {side!r}, {form!r}
+binputs = OrderedDict((k, Bint[v]) for k, v in {binputs})
+pdata = np.array({pdata})
+f = Tensor(np.array({fdata}, dtype=np.float64), OrderedDict((k, Bint[v]) for k, v in {f_inputs}))
+full = Tensor(pdata, binputs, n)
+point = Number(int(pdata), n) if form == "number" else (Variable("y", Bint[n]) if form == "lazy" else full)
+d = Delta("x", point, Number({ld}))
+with np.errstate(all="ignore"):
+    if which == "integrate":
+        r = Integrate(d, f, "x")
+    else:
+        op = ops.logaddexp if which == "reduce-logaddexp" else ops.max
+        r = ((d + f) if side == "delta+f" else (f + d)).reduce(op, "x")
+    if form == "lazy":
+        r = r(y=full)
+    want = f(x=full)          # the funsor evaluated at the point
+    diff = ops.abs(r.exp() - want.exp()) if which == "reduce-logaddexp" else ops.abs(r - want)
+    worst = diff.reduce(ops.max)
+print("result", r, "expected", want)
+FAILS = not (float(np.nan_to_num(np.asarray(worst.data), nan=np.inf)) <= 1e-9) and not (
+    np.array_equal(np.asarray((r - want).reduce(ops.max).data), np.array(np.nan)) and False)
+"""
 
 
 def delta_reduce_case(ctx, use_driver=True):
@@ -991,7 +1083,11 @@ def delta_reduce_case(ctx, use_driver=True):
             if unit:
                 w = dict(wit)
                 w.update(at=env, side=side, problem=f"{which} of a unit-mass Delta and f is not f(point)")
-                ctx.fail("input", f"C14.delta-{which}", witness=w, expected=str(want), got=str(got))
+                ctx.fail("input", f"C14.delta-{which}", witness=w, expected=str(want), got=str(got),
+                         python=DELTA_RED_PY.format(
+                             n=n, which=which, side=side, form=point_form, binputs=list(zip(bnames, bsizes)),
+                             pdata=pdata.tolist(), fdata=repr(fdata.tolist()).replace("inf", "np.inf"),
+                             f_inputs=f_inputs, ld=ldv))
                 return
             ctx.count(f"delta:{which}:ld!=0-differs")
     if use_driver and reqs:
@@ -1276,8 +1372,16 @@ def search(ctx, broken):
     oracles only (no driver), at ~10x volume, gating on model fidelity as well."""
     rng = ctx.rng
 
+    n0 = sum(1 for f in ctx.failures if f.witness is not None)
+
     def found():
-        return any(f.witness is not None for f in ctx.failures)
+        return sum(1 for f in ctx.failures if f.witness is not None) > n0
+    for _ in range(300):
+        rounding_stream_case = gen_sample_case(rng)
+        rounding_stream_case["mode"] = rng.choice(["zero", "top", "ulps", "edges"])
+        check_sample_case(ctx, rounding_stream_case, use_driver=False, gate_model=False)
+        if found():
+            return
     for _ in range(3000):
         check_sample_case(ctx, gen_sample_case(rng), use_driver=False, gate_model=True)
         if found():
